@@ -216,6 +216,9 @@ let dispatch (fn : string) (copy : string) (a : arg list) : out list res =
     let p = params_of copy in
     keypair p (zeros (int_of_z (pPK p))) (zeros (int_of_z (pSK p))) (Some (getb seed)) []
     >>= fun ((pk, sk), _) -> ret [ob pk; ob sk]
+  | "keypair_buf", [pk0; sk0; seed] ->
+    keypair (params_of copy) (getb pk0) (getb sk0) (Some (getb seed)) []
+    >>= fun ((pk, sk), _) -> ret [ob pk; ob sk]
   | "keypair_rand", [tape] ->
     let p = params_of copy in
     keypair p (zeros (int_of_z (pPK p))) (zeros (int_of_z (pSK p))) None (getb tape)
